@@ -1,11 +1,12 @@
 import Lean.Data.Json
 import SpoxModel.Model.Tensor
 import SpoxModel.Model.Attr
+import SpoxModel.Model.Embed
 import SpoxModel.Generated.Capture
 /-! Line-protocol handler for C10: run `fromArray` / `toArray` / `construct` / the heap model on the
     request and report everything (the harness compares with the real code, field by field). -/
 namespace Drv.C10
-open Lean Tensor Attr Capture
+open Lean Tensor Attr Capture Embed
 
 def natList (j : Json) (k : String) : Except String (List Nat) :=
   match j.getObjVal? k with
@@ -68,10 +69,8 @@ def parseAtom (j : Json) : Except String Atom := do
   | "none" => return .none
   | "bool" => return .bool (← j.getObjValAs? Bool "v")
   | "int" =>
-    let n ← j.getObjValAs? Int "v"
-    let f := match j.getObjValAs? Nat "f32" with | .ok p => some p | .error _ => none
-    return .int n f
-  | "float" => return .float (← j.getObjValAs? Nat "bits") (← j.getObjValAs? Nat "f32")
+    return .int (← j.getObjValAs? Int "v")
+  | "float" => return .float (← j.getObjValAs? Nat "bits")
   | "str" => return .str (charsOf (← natList j "v"))
   | "bytes" => return .bytes (bytesOf (← natList j "v"))
   | "ndarray" => return .ndarray (← parseArr j)
@@ -105,6 +104,44 @@ def aprotoJson (p : AProto) : Json := Json.mkObj [
 def storedLen : PyVal → Json
   | .atom _ => Json.null
   | .seq items => toJson items.length
+
+def parseScalar (j : Json) : Except String Scalar := do
+  let k ← j.getObjValAs? String "k"
+  match k with
+  | "bool" => return .bool (← j.getObjValAs? Bool "v")
+  | "int" => return .int (← j.getObjValAs? Int "v")
+  | "float" => return .float (← j.getObjValAs? Nat "bits")
+  | "str" => return .str (charsOf (← natList j "v"))
+  | _ => throw s!"bad scalar kind {k}"
+
+def parseValue (j : Json) : Except String Value := do
+  let k ← j.getObjValAs? String "k"
+  match k with
+  | "npscalar" =>
+    let dn ← j.getObjValAs? String "dtype"
+    let some d := DType.ofName? dn | throw s!"bad dtype {dn}"
+    return .npScalar d (← natList j "words") (charsOf (← natList j "str"))
+  | "array" => return .array (← parseArr j)
+  | "list" =>
+    let items ← j.getObjValAs? (Array Json) "items"
+    return .list (← items.toList.mapM parseScalar)
+  | "nested" =>
+    let rows ← j.getObjValAs? (Array Json) "rows"
+    return .nested (← rows.toList.mapM fun r => do
+      let a ← r.getArr?
+      a.toList.mapM parseScalar)
+  | _ => return .scalar (← parseScalar j)
+
+def embeddedJson (e : Embedded) : Json := Json.mkObj [
+  ("route", if e.route == .constantNode then "constant" else "initializer"),
+  ("proto", protoJson e.tensor),
+  ("type", Json.mkObj [("dtype", e.varType.1.name), ("shape", toJson e.varType.2)]),
+  ("prop", optJson arrJson e.propagated)]
+
+def outcomeJson : Option (Except Err Embedded) → Json
+  | none => Json.mkObj [("unmodelled", true)]
+  | some (.error e) => Json.mkObj [("err", e.name)]
+  | some (.ok e) => Json.mkObj [("ok", embeddedJson e)]
 
 def parseMode : String → Except String Mode
   | "alias" => pure .alias | "copy" => pure .copy | "freeze" => pure .freeze | "deep" => pure .deep
@@ -153,6 +190,29 @@ def handleE (req : Json) : Except String Json := do
     let st := capture mode h a
     return Json.mkObj [("at_call", toJson (observe h st)), ("after", toJson (observe (mutate h muts) st)),
       ("safe", toJson (safe mode a.kind))]
+  | "embed" =>
+    let fn ← req.getObjValAs? String "fn"
+    let vj ← req.getObjVal? "val"
+    match fn with
+    | "const" => return outcomeJson (Embed.const q (← parseValue vj))
+    | "future_initializer" => return outcomeJson (futureInitializer q (← parseValue vj))
+    | "initializer" => return outcomeJson (some (graphInitializer q (← parseArr vj)))
+    | "arg_default" => return outcomeJson (some (argDefault q (← parseArr vj)))
+    | _ => throw s!"bad fn {fn}"
+  | "constant" =>
+    let kn ← req.getObjValAs? String "key"
+    let some k := ConstKey.ofName? kn | throw s!"bad key {kn}"
+    let v ← parseVal (← req.getObjVal? "val")
+    match Embed.constant q k v with
+    | .ok (p, pr) => return Json.mkObj [("ok", aprotoJson p), ("prop", optJson arrJson pr),
+        ("prop_modelled", toJson pr.isSome)]
+    | .error e => return Json.mkObj [("err", e.name)]
+  | "r32" =>
+    let bs ← natList req "bits"
+    return Json.mkObj [("f32", toJson (bs.map FloatBits.r32))]
+  | "i2d" =>
+    let ns ← intList req "ints"
+    return Json.mkObj [("f64", Json.arr (ns.map fun n => optJson (fun (b : Nat) => toJson b) (FloatBits.i2d n)).toArray)]
   | "tables" =>
     return Json.mkObj [
       ("capture", Json.arr (Generated.CaptureTable.table.map fun e =>
